@@ -30,14 +30,18 @@ def run(tier):
         for v in r["violations"] or []:
             if v["kind"] == "assert" and v["id"].startswith("C15."):
                 c.handle("hub", "H_Hub_C15", v, make_tape=c15_tape, redirects=hubstep.HUB_REDIRECTS)
-    # lemmas on the real NormalizeSKI (cvc5 strings)
-    res2, meta2 = lib.run_engine("util", ["H_C15_Lemmas"], sched="seq", solver="cvc5", strbytes=False, maxstr=10, workers=4, timeout_ms=60000)
+    # lemmas on the real NormalizeSKI: strings as bounded byte vectors (QF_BV, z3)
+    n1 = 8 if tier == "thorough" else 6
+    res2, meta2 = lib.run_engine("util", ["H_C15_Lemma_Idem", "H_C15_Lemma_Case", "H_C15_Lemma_Sep"], sched="seq", solver="z3",
+                                 maxstr=n1, workers=1, timeout_ms=300000, extra=["-bvstr"])
     c.add_run("normalize-lemmas", res2, meta2)
+    c.bounds["lemma_string_len_max"] = n1
+    c.bounds["lemma_two_strings_len_max"] = "4+4"
     if res2:
-        r = res2["H_C15_Lemmas"]
-        if not r["covers"].get("lemma.end"):
-            c.covers_missing.append("H_C15_Lemmas:lemma.end")
-        for v in r["violations"] or []:
-            if v["kind"] == "assert":
-                c.handle("util", "H_C15_Lemmas", v)
+        for e, r in res2.items():
+            if not r["covers"].get("lemma.end"):
+                c.covers_missing.append(e + ":lemma.end")
+            for v in r["violations"] or []:
+                if v["kind"] == "assert":
+                    c.handle("util", e, v)
     return c.finish()
